@@ -306,6 +306,43 @@ def nesting_stream(ctx):
                      f"{groups[0] == singles if groups else None}")
 
 
+FILLED_SRCS += ['''
+@tweezer
+def hopv(g: grid.Grid[Any, Any], dx: float):
+    action.set_loc(g)
+    action.move(grid.shift(g, dx, 0.0))
+
+@move
+def pick_fn(b: bool):
+    fa = schedule.device_fn(hopv, [0], [0])
+    fb = schedule.device_fn(hopv, [1], [1])
+    r = schedule.reverse(fb)
+    if b:
+        r = fa
+    return r
+
+@move
+def main(n: int, m: int, b: bool):
+    z = spec.get_static_trap(zone_id="A")
+    fa = schedule.device_fn(hopv, [0], [0])
+    fb = schedule.device_fn(hopv, [1], [1])
+    if b:
+        f = fa
+    else:
+        f = fb
+    f(z, 1.0)
+    g = f
+    g(z, 2.0)
+    h = pick_fn(b)
+    h(z, 3.0)
+    for i in range(n):
+        g(z, 0.5 * i)
+        g = schedule.reverse(g)
+    gate.global_rz(0.5)
+    return n
+''']
+
+
 def canon_obj(o):
     """route-independent text of an event operand (filled grids included)"""
     if isinstance(o, (list, tuple)):
